@@ -62,6 +62,10 @@ const (
 )
 
 func (p *Parser) rune() rune {
+	if p.r == runeEOF {
+		// Do not move the position any further past the end of the input.
+		return p.r
+	}
 	if p.r == '\n' || p.r == escNewl {
 		// p.r instead of b so that newline
 		// character positions don't have col 0.
